@@ -249,20 +249,37 @@ fn exp_strategy() -> BoxedStrategy<ExpArg> {
     .boxed()
 }
 
+const TAIL_SHAPES: &[u8] = &[0, 1, 5, 6, 7, 8, 10, 2, 4, 14, 14];
+
 fn fmt_strategy() -> BoxedStrategy<Fmt> {
     let cfg = build_cfg();
     let pad = cfg.padding as i64;
-    (gen::udigits(30), any::<bool>(), -60i64..=60, prop_oneof![2 => Just(None), 3 => (0u32..12).prop_map(Some), 2 => (-4i64..=4).prop_map(move |d| Some((pad + d).max(0) as u32))], 0..6u8, -4i64..=4)
-        .prop_map(move |(digits, neg, scale, prec, aim, d)| {
+    (
+        gen::digspec_shapes(240, TAIL_SHAPES),
+        any::<bool>(),
+        -60i64..=260,
+        prop_oneof![2 => Just(None), 3 => (0u32..12).prop_map(Some), 2 => (-4i64..=4).prop_map(move |d| Some((pad + d).max(0) as u32))],
+        0..10u8,
+        -4i64..=4,
+    )
+        .prop_map(move |(spec, neg, scale, prec, aim, d)| {
+            let digits = gen::digits_of(&spec);
             let nd = digits.len() as i64;
-            // aim the scale at the padding limit for precision cases on integers
-            let scale = match (aim, prec) {
-                (0, Some(n)) => -((pad - n as i64 - 1 + d).max(0)),
-                (1, Some(_)) => scale.min(0),
-                (2, Some(n)) => n as i64 + 1 + (d.abs() % 3), // rounding at N with a short tail
-                _ => scale,
+            // the tail families place their tail at this cut (see gen::digits_of)
+            let cut = if nd >= 3 { 1 + (spec.aux as i64 % (nd - 2)) } else { 1 };
+            let (scale, prec) = match (aim, prec) {
+                // integers whose padding sits at the configured limit
+                (0, Some(n)) => (-((pad - n as i64 - 1 + d).max(0)), Some(n)),
+                (1, Some(n)) => (scale.min(0), Some(n)),
+                // rounding exactly at the tail family's cut: N = scale - (nd - cut)
+                (2..=6, Some(_)) => {
+                    let scale = scale.max(nd - cut);
+                    (scale, Some((scale - (nd - cut)).clamp(0, 1100) as u32))
+                }
+                // rounding point just left of / at the first digit
+                (7, Some(_)) => (scale.max(nd), Some((scale.max(nd) - nd).clamp(0, 1100) as u32)),
+                (_, p) => (scale, p),
             };
-            let _ = nd;
             Fmt { d: D::new(if neg && digits != "0" { format!("-{}", digits) } else { digits }, scale), prec }
         })
         .boxed()
